@@ -17,8 +17,8 @@ CHECKS = {
  "C04": dict(cat="model_checking", tech="stateless model checking of the real code (schedules, step monitor) + exhaustive fault placement over request sequences, exact quiescence detection",
    text="Safety is a monitor evaluated after every scheduling step of every explored schedule; liveness is decided exactly at scheduler-detected quiescence for every request sequence of length 1-2 over 9 outcome classes x every engine fault kind on every commit.",
    ref="4/C04"),
- "C03": dict(cat="model_checking", tech="explicit-state BFS over write histories on the real backend with a versioned-map reference model; every read at every revision compared after every transition",
-   text="All histories up to the stated depth over a 10-operation-per-key alphabet on prefix-related key sets (states de-duplicated on the rank-normalised model), each transition executed on a fresh real backend; every point/range/limited/count read at every revision is compared with the model and with the previous answer.",
+ "C03": dict(cat="model_checking", tech="explicit-state BFS over write histories on the real backend with a versioned-map reference model; every read at every revision compared after every transition; plus preemption-bounded schedule exploration of concurrent range reads with different limits, a count and a writer",
+   text="All histories up to the stated depth over a 10-operation-per-key alphabet on prefix-related key sets (states de-duplicated on the rank-normalised model), each transition executed on a fresh real backend; every point/range/limited/count read at every revision is compared with the model and with the previous answer. Concurrent reads: every schedule (bound 1 quick / 2 thorough) of 2-3 Lists of one range with different limits, a Count and a writer inside the range; each answer must equal the snapshot at its own header revision.",
    ref="4/C03"),
  "C07": dict(cat="fault_enumeration", tech="explicit-state BFS over write+compaction histories with exhaustive placement of deletion faults / compactor death, plus preemption-bounded schedule exploration of compactor vs writers vs reader",
    text="Every compaction of every explored history is also run with each of its first 5 deletions failing (2 error kinds) and with the compactor dying after i deletions; reads at or above the floor, later writes and out-of-range records are compared with the model after every step; a compactor thread is explored against writers/readers under all schedules up to the bound.",
@@ -45,13 +45,13 @@ CHECKS = {
    text="In every state of the history BFS every single border and every pair (thorough: also triples, and real region splits of the tikv mock cluster) of borders from stored and well-formed internal keys, reported in every order, is installed; List, Count, whole-interval stream and the concatenation of per-advertised-partition streams at every revision are compared with the model; batch revisions and terminators are checked.",
    ref="4/C13"),
  "C09": dict(cat="fault_enumeration", tech="exhaustive enumeration of unknown-outcome fault placements, variants, continuations, clock scripts and repair-commit fates on the real backend with the real sequencer and retry loop under a virtual clock; plus preemption-bounded DFS over the schedules of the retry loop against a concurrent writer on the same key",
-   text="Every (history, faulted write, applied/not applied, continuation up to 2-3 steps incl. compaction and the retry interval elapsing, fate of the repair commit) combination is executed; the client must get an error, the read revision must keep up, compaction must stay below the unresolved revision, and after the repair ran the store must equal snapshot + delivered events with every acknowledged write delivered and durable, every key readable and conditionally writable at the revision the events end at. The retry loop is also explored under every schedule (bound 1 quick / 2 thorough) against a client writing the same key and a compaction request.",
+   text="Every (history, faulted write, first or second commit of it, applied/not applied, continuation up to 2-3 steps incl. compaction and the retry interval elapsing, fate of the repair commit) combination is executed; the client must get an error, the read revision must keep up, compaction must stay below the unresolved revision, and after the repair ran the store must equal snapshot + delivered events with every acknowledged write delivered and durable, every key readable and conditionally writable at the revision the events end at. The retry loop is also explored under every schedule (bound 1 quick / 2 thorough) against a client writing the same key and a compaction request.",
    ref="4/C09"),
  "C14": dict(cat="model_checking", tech="stateless model checking of the real resource lock: all schedules at engine-call granularity (unbounded for 2 candidates x 1 round) with state cache; oracle on the recorded engine trace",
    text="Every interleaving of the get/create/update steps of 2-3 candidates over one store, from an absent and from a held record, on memkv, badger and tikv-mock; at most one create takes effect and every effective update was conditioned on exactly the previously stored bytes.",
    ref="4/C14"),
  "C15": dict(cat="fault_enumeration", tech="exhaustive enumeration of old-leader histories with a stop (crash) after every prefix, followed by a take-over through the real lock and the production OnStartedLeading code; storage scan oracle",
-   text="Every old-leader history up to depth 3-4 over a 10-operation alphabet (incl. 1/10/100 failed writes and lock renewals) on memkv, badger and tikv-mock with a fresh database each, the new leader being either a node started afterwards or a standby that polled the lock during the old term; the new leader's first revisions must exceed every stored revision, guarded writes must work and List must be complete.",
+   text="Every old-leader history up to depth 3-4 over a 10-operation alphabet (incl. 1/10/100 failed writes and lock renewals) on memkv, badger and tikv-mock with a fresh database each, the new leader being either a node started afterwards or a standby that polled the lock and served follower reads during the old term; the new leader's first revisions must exceed every stored revision, guarded writes must work and List must be complete.",
    ref="4/C15"),
  "C16": dict(cat="model_checking", tech="explicit-state BFS over Kubernetes-shaped transaction histories through the real etcd RPC server against an etcd reference model, plus exhaustive enumeration of a transaction grammar (~21 000 shapes x 3 store states)",
    text="Every history up to the stated depth of the four Kubernetes shapes on 3 prefix-related keys is executed through RPCServer.Txn/Range/Watch and compared field by field with etcd semantics; every shape of the grammar must either be one of the four shapes on one key or be rejected with an error and leave the store byte-identical.",
